@@ -347,6 +347,18 @@ end module moda
 module modb
   integer :: sx, q3
 end module modb
+module modp
+contains
+  subroutine rp(a, b)
+    integer :: a, b
+  end subroutine rp
+  subroutine rp1(a, b)
+    integer :: a, b
+  end subroutine rp1
+  subroutine rp2(a, b)
+    integer :: a, b
+  end subroutine rp2
+end module modp
 """
 
 
